@@ -38,3 +38,7 @@ package expect
 //@   loop 2 ghostfn chk(rangeindex + 1) = 1
 //@   loop 2 invariant[C19] scanned: forall j rawint :: 0 <= j && j <= rangeindex ==> chk(j) == 1
 //@   ensures[C19] wholeset: err == nil ==> forall j rawint :: 0 <= j && j < len(iop.OutputSet) ==> chk(j) == 1
+// Each line is judged on its own: it is decoded into a fresh, empty variable
+// (decoding into a variable that still holds the previous message would merge
+// the two objects).
+//@   callpre[C19] Unmarshal: backing(arg0) == backing(line) ==> is(arg1, *interface{}) && as(arg1, *interface{}) != nil && isnil(*as(arg1, *interface{}))
